@@ -27,4 +27,15 @@ def weak_prev_nodes(ctx, prog):
 for _f, _id in ((rewire, "C16.DTAB-rewire"), (weak_prev_nodes, "C16.WEAK-prev-nodes")):
     _f.rule_id = _id
 
-RULES = [rewire, weak_prev_nodes]
+def link_callback(ctx, prog):
+    """add_dependency_with(result, on_inner_change) only fills the output if the edge callback of a freshly
+    linked child is delivered (C14.PDOM-link-callback); reported here because the per-key operators are its
+    only in-tree user."""
+    from .engine import run_relabelled
+    from .c14 import pdom_link_callback
+    run_relabelled(ctx, prog, pdom_link_callback, "C14.PDOM-link-callback", "C16.PDOM-link-callback")
+
+
+link_callback.rule_id = "C16.PDOM-link-callback"
+
+RULES = [rewire, weak_prev_nodes, link_callback]
